@@ -87,6 +87,22 @@ Theorem invalid_never_grants :
 Proof. exact invalid_never_grants_ok. Qed.
 Print Assumptions invalid_never_grants.
 
+(* A long-running client: after any history of announcements, the answer for a server is the
+   certificate rule applied to the certificate list of the LATEST announcement of that server
+   (renewed, added or withdrawn certificates take effect); other servers are unaffected. *)
+Theorem verifier_follows_latest_announcement :
+  forall (pubkey msg sig : Type) (verify : pubkey -> msg -> sig -> bool)
+         (spk : Type) (spk_eqb : spk -> spk -> bool) (decode : msg -> option (cert_json spk))
+         (keys : list pubkey) (h : ann_history msg sig) (id : N) (cs : list (signed_cert msg sig))
+         (public_key : spk) (now : Z),
+    broker_permitted verify spk_eqb decode keys (h ++ [(id, cs)]) id public_key now
+      = Some (permitted verify spk_eqb decode keys cs public_key now) /\
+    (forall id', id <> id' ->
+       broker_permitted verify spk_eqb decode keys (h ++ [(id, cs)]) id' public_key now
+       = broker_permitted verify spk_eqb decode keys h id' public_key now).
+Proof. exact verifier_follows_latest_announcement_full. Qed.
+Print Assumptions verifier_follows_latest_announcement.
+
 (* ---- the hypotheses are satisfiable; the boundary behaves as stated ----
    symbolic scheme: grid-manager keys 1 and 2; server keys 10, 11;
    message 100 = {public_key: 10, expires: 5000}, 101 = {public_key: 11, expires: 5000},
@@ -130,6 +146,13 @@ Proof. vm_compute. reflexivity. Qed.
 Example ex_zoneless_expiry_raises :
   sym_permitted ex_tbl [1%N] [sym_cert 104 (sym_sign 1 104)] 10%N 0 = Raise.
 Proof. vm_compute. reflexivity. Qed.
+
+Example ex_renewed_certificate_takes_effect :
+  sym_broker_permitted ex_tbl [1%N] [(5%N, []); (6%N, [sym_cert 100 (sym_sign 1 100)]); (5%N, [sym_cert 100 (sym_sign 1 100)]); (6%N, [])]
+                       5%N 10%N [0; 5000]
+  = [Some Permit; Some Deny]
+  /\ sym_broker_permitted ex_tbl [1%N] [(5%N, []); (6%N, [sym_cert 100 (sym_sign 1 100)]); (6%N, [])] 6%N 10%N [0] = [Some Deny].
+Proof. vm_compute. split; reflexivity. Qed.
 
 Example permitted_iff_nonvacuous :
   [1%N; 2%N] <> [] /\
